@@ -19,13 +19,14 @@ def run(res, tier, replay=None):
     c01.run_d(prog, res)
     c01.run_g(prog, res)
     c01.run_c1(prog, res)
+    c01.run_c2(prog, res)
     bufbudget.run(prog, res, "C01", "C01.h", {"sexp.c"}, floor=2)
     prims = c01.primitives(prog)
-    c01i.run(prog, res, floor=18, prims=prims, advisory_filter=c01.scope_filter())
-    c01i.run_views(prog, res, floor=5, prims=prims, advisory_filter=c01.scope_filter())
-    c01i.run_extents(prog, res, floor=3, prims=prims, advisory_filter=c01.scope_filter())
-    c01i.run_alloc(prog, res, floor=4, prims=prims, advisory_filter=c01.scope_filter())
-    c01i.run_raise(prog, res, floor=3)
+    c01i.run(prog, res, floor=12, prims=prims, advisory_filter=c01.scope_filter())
+    c01i.run_views(prog, res, floor=3, prims=prims, advisory_filter=c01.scope_filter())
+    c01i.run_extents(prog, res, floor=2, prims=prims, advisory_filter=c01.scope_filter())
+    c01i.run_alloc(prog, res, floor=3, prims=prims, advisory_filter=c01.scope_filter())
+    c01i.run_raise(prog, res, floor=2)
     c01i.witnesses(prog, res)
     if tier == "thorough":
         flt = c01.scope_filter()
@@ -36,6 +37,7 @@ def run(res, tier, replay=None):
             "C01.a": lambda p, r: c01.run_a(p, r),
             "C01.d": lambda p, r: c01.run_d(p, r),
             "C01.c1": lambda p, r: c01.run_c1(p, r),
+            "C01.c2": lambda p, r: c01.run_c2(p, r),
             "C01.h": lambda p, r: bufbudget.run(p, r, "C01", "C01.h", {"sexp.c"}, floor=0),
             "C01.i": lambda p, r: c01i.run(p, r, floor=0, prims=c01.primitives(p), advisory_filter=flt),
             "C01.j": lambda p, r: c01i.run_views(p, r, floor=0, prims=c01.primitives(p), advisory_filter=flt),
